@@ -6,7 +6,7 @@ SEEDS=${1:-"1 2 3"}
 THOROUGH=${2:-}
 export SUMMER2_REPO=${VP_RUN_REPO:-/repo}
 export VERIF_WORKERS=${VERIF_WORKERS:-8}
-python3 harness/translate/gen_tables.py && python3 harness/translate/gen_arith.py && python3 harness/translate/gen_skeleton.py --lean-root lean && (cd lean && lake build Summer driver 2>&1 | tail -1)
+python3 harness/translate/gen_tables.py && python3 harness/translate/gen_arith.py && python3 harness/translate/gen_struct.py && python3 harness/translate/gen_skeleton.py --lean-root lean && (cd lean && lake build Summer driver 2>&1 | tail -1)
 for s in $SEEDS; do
   for i in 01 02 03 04 05 06 07 08 09 10 11 12 13 14 15 16 17 18 19; do
     VERIF_SEED=$s python3 harness/check.py C$i --tier quick 2>&1 | grep -E "^VIOLATION|^KNOWN|^C$i |INFRA" | sed "s/^/seed=$s /"
